@@ -22,7 +22,7 @@ func checkC17(r *Run) {
 	r.Rule("R6", "rendering a block leaves the evaluator in the scope it found: BlockWith (and every other scope installer) restores the saved scope by defer (C09.R1)", 5)
 	scopePairingRule(r, "R6")
 	exactlyOnceRule(r, "R1")
-	contentKeyRule(r, "R2")
+	contentRulesSSA(r, "R1", "R2", "R3", "")
 	helperScopeRule(r, "R3")
 	dataParamRule(r, "R3")
 	partialOrderRule(r, "R4")
@@ -163,67 +163,6 @@ func exactlyOnceRule(r *Run, rule string) {
 			}
 		}
 	}
-	// ContentOf and the contentFor closure
-	if f := w.Func("helpers/content", "ContentOf"); f != nil {
-		info := f.Pkg.TypesInfo
-		isBW := func(c *ast.CallExpr) bool {
-			cal := calleeOf(info, c)
-			return cal != nil && cal.Name() == "BlockWith"
-		}
-		isStored := func(c *ast.CallExpr) bool {
-			if calleeOf(info, c) != nil || builtinName(info, c) != "" {
-				return false
-			}
-			_, isConv := isConversion(info, c)
-			return !isConv
-		}
-		either := func(c *ast.CallExpr) bool { return isBW(c) || isStored(c) }
-		all := func(ret *ast.ReturnStmt) bool {
-			if len(ret.Results) == 1 {
-				return true // return fn(data)
-			}
-			return succ(info)(ret)
-		}
-		cnt := countOnPaths(info, f.Decl.Body, either, all)
-		if onlyCount(cnt, 1) {
-			r.Ok(rule, f.Name(), "stored closure or own block, exactly one of them", w.Pos(f.Decl.Pos()), "on every success path")
-		} else {
-			r.Bad(rule, f.Name(), fmt.Sprintf("renders %v per success path", keys(cnt)), w.Pos(f.Decl.Pos()), "contentOf must emit the stored block (or its default block) exactly once")
-		}
-	} else {
-		r.Lost(rule, "ContentOf")
-	}
-	if f := w.Func("helpers/content", "ContentFor"); f != nil {
-		info := f.Pkg.TypesInfo
-		var lit *ast.FuncLit
-		inspectBody(f.Decl.Body, false, func(n ast.Node) bool {
-			if fl, ok := n.(*ast.FuncLit); ok && lit == nil {
-				lit = fl
-			}
-			return true
-		})
-		if lit == nil {
-			r.Bad(rule, f.Name(), "no stored closure", w.Pos(f.Decl.Pos()), "contentFor must store the block for later rendering")
-		} else {
-			cnt := countOnPaths(info, lit.Body, func(c *ast.CallExpr) bool {
-				cal := calleeOf(info, c)
-				return cal != nil && cal.Name() == "BlockWith"
-			}, succ(info))
-			if onlyCount(cnt, 1) {
-				r.Ok(rule, f.Name(), "stored closure renders the block once", w.Pos(lit.Pos()), "on every success path")
-			} else {
-				r.Bad(rule, f.Name(), fmt.Sprintf("stored closure renders %v times", keys(cnt)), w.Pos(lit.Pos()), "every contentOf must emit the stored block exactly once")
-			}
-			// the definition itself renders nothing
-			for _, c := range callsIn(f.Decl.Body, true) {
-				if cal := calleeOf(info, c); cal != nil && (cal.Name() == "BlockWith" || cal.Name() == "Block" || cal.Name() == "Render") {
-					r.Bad(rule, f.Name(), "renders at definition "+short(w.Fset, c), w.Pos(c.Pos()), "contentFor must not render where it is defined")
-				}
-			}
-		}
-	} else {
-		r.Lost(rule, "ContentFor")
-	}
 }
 
 func keys(m map[int]bool) []int {
@@ -306,7 +245,7 @@ func contentKeyRule(r *Run, rule string) {
 
 func dataParamRule(r *Run, rule string) {
 	w := r.W
-	for _, spec := range []struct{ rel, name string }{{"", "PartialHelper"}, {"helpers/content", "ContentOf"}} {
+	for _, spec := range []struct{ rel, name string }{{"", "PartialHelper"}} {
 		f := w.Func(spec.rel, spec.name)
 		if f == nil {
 			continue
